@@ -87,9 +87,12 @@ func validText(a Attempt, dir string) string {
 	return sb.String()
 }
 
-var failureKinds = []string{"lex", "unknown-directive", "bad-arg", "bad-arg-after-hook", "missing-htpasswd", "bad-htpasswd", "htpasswd-user-missing", "missing-import", "missing-cert", "port-in-use", "port-in-use-first-site-ok", "udp-port-in-use", "bind-unavailable", "startup-callback", "tls-mix", "bad-proxy", "bad-tls-arg"}
+var failureKinds = []string{"lex", "unknown-directive", "bad-arg", "bad-arg-after-hook", "missing-htpasswd", "bad-htpasswd", "htpasswd-user-missing", "missing-import", "missing-cert", "port-in-use", "port-in-use-first-site-ok", "udp-port-in-use", "bind-unavailable", "startup-callback", "tls-mix", "bad-proxy", "bad-tls-arg", "conf-missing", "htpasswd-corrupted"}
 
 func invalidText(a Attempt, dir string) string {
+	if a.Kind == "htpasswd-corrupted" {
+		a.Auth = true // the configuration names ht.txt, which is malformed while this attempt is made
+	}
 	base := validText(Attempt{K: 900 + a.K, Sites: a.Sites, Auth: a.Auth, Hook: a.Hook}, dir)
 	if a.Roll {
 		base = strings.Replace(base, "/access.log\n", "/access.log {\n\t\trotate_size 1\n\t\trotate_keep 1\n\t}\n", 1)
@@ -98,6 +101,11 @@ func invalidText(a Attempt, dir string) string {
 		return strings.Replace(base, "\tstatus 204 /\n", "\tstatus 204 /\n\t"+line+"\n", 1)
 	}
 	switch a.Kind {
+	case "htpasswd-corrupted":
+		return base
+	case "conf-missing":
+		// only as a reload by signal: the configuration file is not there when the loader looks for it
+		return child.RemoveConf
 	case "lex":
 		return "localhost:8081 {\n\tgzip {\n"
 	case "unknown-directive":
@@ -155,6 +163,7 @@ func mkdir() string {
 func script(c *Case, dir string, only int) *child.Script {
 	sc := &child.Script{Dir: dir, Probes: []string{"8081|localhost", "8082|localhost", "8083|localhost", "8084|localhost", "8085|localhost"}}
 	occupied, occupiedUDP := false, false
+	htGood := "bob:" + shaPassword + "\n" // the good content of ht.txt as it stands (a repair adds dave)
 	sc.QUIC = c.QUIC
 	atts := c.Attempts
 	if only >= 0 {
@@ -182,12 +191,23 @@ func script(c *Case, dir string, only int) *child.Script {
 		if only >= 0 {
 			op = "load" // the fresh process loads it as its first configuration
 		}
+		if a.Kind == "htpasswd-corrupted" {
+			// the htpasswd file that earlier loads have read is malformed while this attempt is made
+			sc.Steps = append(sc.Steps, child.Step{Op: "writefile", Path: "ht.txt", Text: "this line has no colon\n"})
+		}
 		sc.Steps = append(sc.Steps, child.Step{Op: op, Text: t})
+		if a.Kind == "htpasswd-corrupted" {
+			// the very same attempt once more with nothing changed, then the operator puts the file back
+			sc.Steps = append(sc.Steps, child.Step{Op: op, Text: t, Tag: "again"}, child.Step{Op: "writefile", Path: "ht.txt", Text: htGood})
+		}
 		if a.Roll && a.Kind != "valid" && only < 0 {
 			sc.Steps = append(sc.Steps, child.Step{Op: "hammer", Port: "8081", N: 320})
 		}
 		if st, _, ok := repairStep(a); ok && a.Repair && only < 0 {
 			sc.Steps = append(sc.Steps, st)
+			if st.Path == "ht.txt" {
+				htGood = st.Text
+			}
 		}
 	}
 	return sc
@@ -227,6 +247,12 @@ func runCase(c *Case) (nontrivial bool, err error) {
 	// map observations back to attempts (occupy steps are interleaved)
 	var obs []child.Obs
 	for _, o := range resA.Obs {
+		if o.Tag == "again" {
+			if o.OK {
+				return true, fmt.Errorf("attempt %d (a configuration whose htpasswd file is malformed) was rejected, and accepted when the very same attempt was made again with nothing changed; history %v", len(obs)-1, kinds(c.Attempts[:len(obs)]))
+			}
+			continue
+		}
 		if o.Op == "hammer" {
 			// the running site (if there is one) has written > 1 MB of access log after a failed attempt whose
 			// configuration asked for rotation at 1 MB: the running site's own settings (100 MB) still apply
@@ -403,6 +429,10 @@ func genCase(t *rapid.T) *Case {
 			} else {
 				a.Op = "load"
 			}
+		}
+		if a.Kind == "conf-missing" && a.Op != "reload" {
+			a.Kind = "lex" // a missing file is only a reload-by-signal failure here
+			a.Roll, a.Repair = false, false
 		}
 		if a.Kind == "valid" && a.Op == "load" {
 			running = true
